@@ -190,6 +190,7 @@ impl Acc {
         f: impl FnOnce(&mut Acc) -> Check,
     ) -> bool {
         self.eval();
+        let _guard = CaseGuard::enter(case, phase);
         let r = catch_unwind(AssertUnwindSafe(|| f(self)));
         match r {
             Ok(Ok(())) => true,
@@ -319,6 +320,7 @@ where
             // shrinking: not counted as evaluations, but it is progress for the watchdog
             PROGRESS.fetch_add(1, Ordering::Relaxed);
         }
+        let _guard = CaseGuard::enter(&case, phase);
         let r = catch_unwind(AssertUnwindSafe(|| f(&case, &mut acc)));
         match r {
             Ok(Ok(())) => Ok(()),
@@ -480,6 +482,81 @@ pub fn build_tag() -> &'static str {
         "checked"
     } else {
         "unchecked"
+    }
+}
+
+// ------------------------------------------------------------------------------------------------
+// The case a thread is working on, for the abort handler: a panic while panicking (for instance a
+// failing debug assertion in a destructor of the code under test) aborts the whole process, and
+// nothing that was recorded in memory would be reported. Two pointer writes per case.
+
+#[derive(Clone, Copy)]
+struct CurrentCase {
+    case: *const (),
+    ser: fn(*const ()) -> String,
+    phase: *const str,
+}
+
+thread_local! {
+    static CURRENT: std::cell::Cell<Option<CurrentCase>> = const { std::cell::Cell::new(None) };
+}
+
+static ABORT_ID: std::sync::OnceLock<String> = std::sync::OnceLock::new();
+
+fn ser_case<T: Serialize>(p: *const ()) -> String {
+    // only called while the referent is alive (see `CaseGuard`)
+    unsafe { serde_json::to_string(&*(p as *const T)).unwrap_or_else(|_| "null".into()) }
+}
+
+pub struct CaseGuard;
+
+impl CaseGuard {
+    pub fn enter<T: Serialize>(case: &T, phase: &str) -> CaseGuard {
+        let _ = CURRENT.try_with(|c| c.set(Some(CurrentCase { case: case as *const T as *const (), ser: ser_case::<T>, phase: phase as *const str })));
+        CaseGuard
+    }
+}
+
+impl Drop for CaseGuard {
+    fn drop(&mut self) {
+        let _ = CURRENT.try_with(|c| c.set(None));
+    }
+}
+
+extern "C" fn on_abort(_sig: libc::c_int) {
+    // Best effort; the process is about to die anyway.
+    let id = ABORT_ID.get().cloned().unwrap_or_default();
+    let cur = CURRENT.try_with(|c| c.get()).ok().flatten();
+    let last = crate::panics::last_message();
+    match cur {
+        Some(c) => {
+            let case = (c.ser)(c.case);
+            let phase = unsafe { &*c.phase }.to_string();
+            let sig = format!("process-abort:{}", crate::panics::panic_sig(&last));
+            let msg = format!("the process aborted (a panic while panicking, or a panic that cannot unwind) in the code under test; last panic: {last}");
+            let v = Violation { phase, sig: sig.clone(), msg: msg.clone(), case: serde_json::from_str(&case).unwrap_or(Value::Null) };
+            let path = write_replay(&id, &v);
+            let out = format!("--- {} [{}] {}; case {}\nVIOLATION property={} replay={}\n", v.phase, sig, msg, &case[..case.len().min(600)], id, path);
+            unsafe {
+                libc::write(1, out.as_ptr() as *const libc::c_void, out.len());
+                libc::_exit(1);
+            }
+        }
+        None => {
+            let out = format!("INCONCLUSIVE: the process aborted outside a case (last panic: {last})\n");
+            unsafe {
+                libc::write(1, out.as_ptr() as *const libc::c_void, out.len());
+                libc::_exit(2);
+            }
+        }
+    }
+}
+
+/// Installs the abort handler for property `id`.
+pub fn install_abort_handler(id: &str) {
+    let _ = ABORT_ID.set(id.to_string());
+    unsafe {
+        libc::signal(libc::SIGABRT, on_abort as usize);
     }
 }
 
